@@ -2,6 +2,7 @@
 //! in-memory network with a virtual clock and an owned `select!` start index.
 pub mod c01;
 pub mod c02;
+pub mod c03;
 pub mod c16;
 pub mod exec;
 pub mod explore;
